@@ -86,6 +86,18 @@ func (f *Filer) RecoverTail(info types.SegmentInfo) (types.SegmentWriter, error)
 		wf.Close()
 		return nil, err
 	}
+
+	// Whatever we just recovered may never have been fsynced: the process may
+	// have died between writing a batch and syncing it, while the machine (and
+	// its page cache) stayed up. From here on the WAL builds on those bytes -
+	// Open may complete the rotation of a tail that turns out to be sealed,
+	// later appends may go to a different file - so make them durable first,
+	// otherwise a later power loss can take the segment's index, and with it
+	// entries that were acknowledged long ago, away again.
+	if err := wf.Sync(); err != nil {
+		w.Close()
+		return nil, err
+	}
 	return w, nil
 }
 
